@@ -19,6 +19,12 @@ PROGS = [
     # program order by completed operations
     {"nodes": [L("a"), {"k": "cb", "between": [L("m"), {"k": "step"}, L("n"), {"k": "wait"}, L("o"), {"k": "step"}, L("p")]}, L("b")]},
     {"nodes": [L("a"), {"k": "invoke", "caught": True}, L("b"), {"k": "cb", "between": [L("m"), {"k": "wait"}, L("n")]}, L("c")]},
+    # a child context whose oversized result was replaced by a summary: its body is re-traversed on replay (log calls inside it
+    # belong to code an earlier invocation already ran), followed by operations that are still incomplete
+    {"nodes": [L("a"), {"k": "child", "large": True, "body": [L("x"), {"k": "step"}, L("y"), {"k": "step"}, L("z")]}, L("b"),
+               {"k": "step", "fail": 1, "max": 2}, L("c"), {"k": "wait"}, L("d")]},
+    {"nodes": [{"k": "child", "large": True, "body": [{"k": "step"}, L("x"), {"k": "child", "body": [L("u"), {"k": "step"}, L("v")]}, L("y")]},
+               L("a"), {"k": "cb", "between": [L("m")]}, L("b")]},
 ]
 
 
